@@ -164,6 +164,12 @@ def work(job):
         return res
     ntok = sum(len(fo.tokens) for fo in out.files.values())
     if out.check.total_missing() is None:
+        if out.check.rc is not None and (ntok > 0 or out.check.rc != 0) and "Found" in out.check.out + out.check.err or envx:
+            # the run ended normally, had something to say (or merely ran in another environment) and printed no total
+            res["violations"].append({"signature": "C05.check-printed-no-total|%s%s" % ("structured" if structured else "unstructured", "|extra-environment" if envx else ""),
+                                      "detail": {"check_exit": out.check.ended(), "inserted_by_edit": ntok, "environment": envx, "stdout_tail": out.check.out[-300:]},
+                                      "case": {"files": {r: f.before for r, f in list(out.files.items())[:4]}, "structured": structured, "ambient": amb, "env": envx}})
+            return res
         res["inconclusive"]["check output has no parsable total"] = 1
         return res
     if truth_missing is not None and not unreadable:
@@ -237,9 +243,9 @@ def replay_witness(w, ck=None, built=None):
     files = {rel: (bytes.fromhex(d["hex"]) if isinstance(d, dict) else d.encode("utf-8")) for rel, d in c["files"].items()}
     with core.Box(tag="c05r") as box:
         cfg = core.make_config(structured=True if c["structured"] else None, use_cache=False)
-        out = lab.run_tree(built, box, files, cfg, trace=False, ambient=ambient.from_json(c.get("ambient")))
+        out = lab.run_tree(built, box, files, cfg, trace=False, ambient=ambient.from_json(c.get("ambient")), env_extra=c.get("env"))
     v = judge(out, files)
-    return bool(v)
+    return bool(v) or out.check.total_missing() is None
 
 
 def replay(path):
